@@ -202,3 +202,45 @@ class Program:
 
     def local_ty(self, f, l):
         return self.types[f["mir"]["locals"][l]["ty"]]
+
+
+# ---------------------------------------------------------------------- positive-control fixture
+_fixture = {}
+
+
+def load_fixture(name="vsins"):
+    """Facts of the sins crate under /verif/fixtures (content-addressed like the repo facts)."""
+    if name in _fixture:
+        return _fixture[name]
+    src = os.path.join(VERIF, "fixtures", name)
+    h = hashlib.sha256()
+    for root, dirs, files in os.walk(src):
+        dirs[:] = sorted(d for d in dirs if d != "target")
+        for f in sorted(files):
+            h.update(f.encode())
+            h.update(open(os.path.join(root, f), "rb").read())
+    h.update(_driver_hash().encode())
+    key = "fx-" + h.hexdigest()[:24]
+    d = os.path.join(CACHE, key)
+    os.makedirs(CACHE, exist_ok=True)
+    lock = open(os.path.join(CACHE, key + ".lock"), "w")
+    fcntl.flock(lock, fcntl.LOCK_EX)
+    try:
+        if not os.path.exists(os.path.join(d, "OK")):
+            tmp = d + ".tmp%d" % os.getpid()
+            shutil.rmtree(tmp, ignore_errors=True)
+            env = dict(os.environ, VERIF_REPO=src, MIRX_PKG=name, MIRX_CRATES=name, MIRX_MAIN=name)
+            r = subprocess.run([RUNNER, tmp, "dev"], env=env, stdout=subprocess.PIPE, stderr=subprocess.PIPE, text=True)
+            if r.returncode != 0:
+                shutil.rmtree(tmp, ignore_errors=True)
+                from .report import ToolFault
+                raise ToolFault("positive-control fixture %s does not export: %s" % (name, r.stderr[-800:]))
+            open(os.path.join(tmp, "OK"), "w").write(key)
+            shutil.rmtree(d, ignore_errors=True)
+            os.rename(tmp, d)
+    finally:
+        fcntl.flock(lock, fcntl.LOCK_UN)
+        lock.close()
+    with open(os.path.join(d, name + ".json")) as fh:
+        _fixture[name] = Program(json.load(fh), {"key": key, "fixture": name})
+    return _fixture[name]
